@@ -41,6 +41,39 @@ class Sink(io.TextIOWrapper):
         return self.buffer.getvalue().decode(self.encoding, "replace")
 
 
+class _DeadPipe(io.RawIOBase):
+    """The write end of a pipe whose reader has gone away (`... | head -1`), or a full disk behind a redirected stdout."""
+
+    def __init__(self, err):
+        self.err = err
+
+    def writable(self):
+        return True
+
+    def write(self, b):
+        import errno
+        raise BrokenPipeError(errno.EPIPE, "Broken pipe") if self.err == "EPIPE" else OSError(errno.ENOSPC, "No space left on device")
+
+
+class BrokenSink(io.TextIOWrapper):
+    """sys.stdout on which every write fails with an OSError (encoding "broken:EPIPE" / "broken:ENOSPC")."""
+
+    def __init__(self, err="EPIPE"):
+        super().__init__(_DeadPipe(err), encoding="utf-8", write_through=True)
+
+    def text(self):
+        return ""
+
+    def close(self):          # never flush into the dead pipe on disposal
+        pass
+
+    def __del__(self):
+        pass
+
+
+BROKEN_STDOUTS = ["broken:EPIPE", "broken:ENOSPC"]
+
+
 @contextlib.contextmanager
 def stdout_as(encoding="utf-8"):
     if encoding is None:          # keep the process's real stdout (subprocess configurations)
@@ -51,7 +84,7 @@ def stdout_as(encoding="utf-8"):
         return
     with _STDOUT_LOCK:                # sys.stdout is process-global: serialise its replacement across threads
         old = sys.stdout
-        s = Sink(encoding)
+        s = BrokenSink(encoding.split(":")[1]) if encoding.startswith("broken:") else Sink(encoding)
         sys.stdout = s
         try:
             yield s
